@@ -189,10 +189,56 @@ def discharge_all(obligations, axioms=(), cross_check=False, procs=None,
     if not jobs:
         return []
     if procs == 1 or len(jobs) == 1:
-        return [_work(j) for j in jobs]
+        return _retry_unknown(jobs, [_work(j) for j in jobs])
     ctx = mp.get_context('fork')
     with ctx.Pool(procs) as pool:
-        return pool.map(_work, jobs, chunksize=1)
+        results = pool.map(_work, jobs, chunksize=1)
+    return _retry_unknown(jobs, results)
+
+
+RETRY_MAX = 24
+
+
+def _retry_one(job):
+    """second attempt for an obligation nobody decided: other seeds, longer
+    budgets, one fresh process per obligation, little competition for the
+    cores. z3's quantifier instantiation is sensitive to the state of the
+    process it runs in and to the load of the machine; a verdict must not be"""
+    name, smt, cc, z3_to, cvc5_to = job
+    tried = []
+    for (solver, arg) in (('z3', 1), ('ground', 3 * z3_to), ('z3', 2),
+                          ('z3', 3)):
+        if solver == 'z3':
+            r, t, reason, model = _run_z3(smt, 2 * z3_to, seed=arg)
+            stats = None
+        else:
+            r, t, reason, model, stats = _run_ground(smt, arg)
+        tried.append(dict(solver='retry:' + solver, result=r,
+                          time_s=round(t, 3), reason=reason))
+        if r == 'unsat':
+            return dict(name=name, backends=tried, verdict='discharged',
+                        by='retry:' + solver)
+        if r == 'sat' and solver == 'z3':
+            return dict(name=name, backends=tried, verdict='refuted',
+                        by='retry:z3', model=model)
+    return dict(name=name, backends=tried, verdict='unknown', by=None)
+
+
+def _retry_unknown(jobs, results):
+    idx = [i for i, r in enumerate(results) if r['verdict'] == 'unknown']
+    if not idx or len(idx) > RETRY_MAX:
+        return results
+    ctx = mp.get_context('fork')
+    with ctx.Pool(min(4, len(idx)), maxtasksperchild=1) as pool:
+        again = pool.map(_retry_one, [jobs[i] for i in idx], chunksize=1)
+    for i, a in zip(idx, again):
+        r = results[i]
+        r['backends'] = r['backends'] + a['backends']
+        if a['verdict'] != 'unknown':
+            r['verdict'], r['by'] = a['verdict'], a['by']
+            if a.get('model') is not None:
+                r['model'] = a['model']
+    return results
 
 
 def check_covers(covers, axioms=(), timeout_ms=5000):
